@@ -239,12 +239,13 @@ def run(ck, m):
               '%s:%s' % (sb.file, sb.line))
     # replicate-since-to: commands = catch-up(start_at) ; sent through the member looked up by name
     okc = False
-    for bi, t in sb.calls():
-        if callee(t) == entry.id:
-            # argument is the parsed u64
-            a0 = origins(sb, t['args'][0], stop_at_calls=True)
-            parsed = any(r[0] == 'call' and callee_decl(sb.term(r[1])) in ('std::str::parse', 'std::result::Result::unwrap') for r in a0)
-            okc = parsed or any(r[0] == 'call' for r in origins(sb, t['args'][0]))
+    for ub in [sb] + P.private_helpers(sb):       # the arm's body may have been extracted into a helper of the loop
+        for bi, t in ub.calls():
+            if callee(t) == entry.id:
+                # argument is the parsed u64
+                a0 = origins(ub, t['args'][0], stop_at_calls=True)
+                parsed = any(r[0] == 'call' and callee_decl(ub.term(r[1])) in ('std::str::parse', 'std::result::Result::unwrap') for r in a0)
+                okc = parsed or any(r[0] == 'call' for r in origins(ub, t['args'][0]))
     ck.ob('C05.f', short(sb.id), 'replicate-since-to:answers-with-catch-up', okc,
           'replicate-since-to computes the catch-up commands for the parsed start_at' if okc else
           'replicate-since-to does not call the catch-up builder with the parsed start', '%s:%s' % (sb.file, sb.line))
